@@ -180,6 +180,13 @@ def identity_violations(wn, w):
 
 
 def obs_scope_x(wn, w):
+    import warnings
+    with warnings.catch_warnings():
+        warnings.simplefilter('ignore')
+        return _obs_scope_x(wn, w)
+
+
+def _obs_scope_x(wn, w):
     o = obs_scope(wn, w)
     o['identity'] = identity_violations(wn, w)
     o['synsets_x'] = [obs_synset_x(wn, x) for x in w.synsets()]
